@@ -131,20 +131,16 @@ def describe_packets(file_path: Path) -> None:
 
     # Determine rows to display (head and tail with ellipsis if necessary)
     if npackets > MAX_ROWS:
-        packets_to_show = packets[:HEAD_ROWS] + packets[-HEAD_ROWS:]
-    else:
-        packets_to_show = packets
-
-    # Add rows to the table
-    for packet in packets_to_show[:HEAD_ROWS]:
-        table.add_row(*[str(value) for value in packet.header_values])
-
-    # Add ellipsis if there are more packets
-    if npackets > MAX_ROWS:
+        for packet in packets[:HEAD_ROWS]:
+            table.add_row(*[str(value) for value in packet.header_values])
+        # Add ellipsis since there are more packets
         table.add_row(*["..." for _ in packets[0].header_values])
-
-    for packet in packets_to_show[-HEAD_ROWS:]:
-        table.add_row(*[str(value) for value in packet.header_values])
+        for packet in packets[-HEAD_ROWS:]:
+            table.add_row(*[str(value) for value in packet.header_values])
+    else:
+        # Few enough packets to show every one of them (exactly once)
+        for packet in packets:
+            table.add_row(*[str(value) for value in packet.header_values])
 
     # Print the table
     console.print(table, overflow="ellipsis")
